@@ -385,7 +385,7 @@ func (s *seqMachine) readType(t *rapid.T) {
 func TestPropCacheSequential(t *testing.T) {
 	countDrift := ev.KnownOpen("C09", knownReadDedup)
 	rec.Assume("sequential machine: caller protocol of the engine is respected — ClearSnapshot only while a snapshot is in progress, every key of a WriteMulti map has >=1 value, DeleteRange gets unique keys and min<=max; the snapshot's share of Size() is the size saved when the snapshot was taken (Cache.snapshotSize), not re-measured after the snapshot is deduplicated")
-	rec.CheckSteps(t, 6000, 120000, 40, func(t *rapid.T) {
+	rec.CheckSteps(t, 3000, 100000, 40, func(t *rapid.T) {
 		var limit uint64
 		if rapid.IntRange(0, 4).Draw(t, "limited") != 0 {
 			limit = uint64(rapid.IntRange(60, 1200).Draw(t, "limit"))
